@@ -19,21 +19,20 @@ Section Main.
   Proof. intros rmax v [Hl H]. apply (lbS_sound_lb m Hwf); assumption. Qed.
 
   (* ---- BlindStrategies *)
-  Lemma blind_iter_sound_vec : forall rmax a k, rmax_ok m rmax -> (a < A)%nat -> blind_start_ok m a ->
+  Lemma blind_iter_sound_vec : forall rmax a k, rmax_ok m rmax -> (a < A)%nat ->
     sound_vec rmax (blind_iter m true a k).
   Proof.
-    intros rmax a k Hr Ha Hok. split; [apply (blind_iter_length m); right; exact I|].
-    apply (blind_iter_sound m Hwf); [apply (tail_hi_rmax m Hwf); exact Hr| exact Ha| exact Hok].
+    intros rmax a k Hr Ha. split; [apply (blind_iter_length m); right; exact I|].
+    apply (blind_iter_sound m Hwf); [apply (tail_hi_rmax m Hwf); exact Hr| exact Ha].
   Qed.
 
   Theorem blind_run_sound_lemma : forall rmax h tol v, rmax_ok m rmax ->
-    (forall a, (a < A)%nat -> blind_start_ok m a) ->
     In v (snd (blind_run m true h tol)) -> sound_lb m rmax (fun b => dot v b).
   Proof.
-    intros rmax h tol v Hr Hok Hin. unfold blind_run in Hin. cbn [snd] in Hin.
+    intros rmax h tol v Hr Hin. unfold blind_run in Hin. cbn [snd] in Hin.
     rewrite map_map in Hin. apply in_map_iff in Hin. destruct Hin as [a [<- Ha]]. apply in_seq in Ha.
     destruct (run_loop_iter m vec (blind_step m a) vvar (use_tol tol) tol h (blind_start m true a) (tol * 2)) as [k [_ E]].
-    rewrite E. apply sound_vec_sound_lb. apply blind_iter_sound_vec; [exact Hr| unfold A; lia| apply Hok; unfold A; lia].
+    rewrite E. apply sound_vec_sound_lb. apply blind_iter_sound_vec; [exact Hr| unfold A; lia].
   Qed.
 
   Theorem blind_finite_lemma : forall a k b, (a < A)%nat -> simplex S b ->
@@ -52,19 +51,19 @@ Section Main.
     assert (E : rmin / (1 - g) * (1 - g) == rmin) by (field; lra). rewrite E. apply H; assumption.
   Qed.
 
-  Theorem fib_iter_sound_lemma : forall rmin k, rmin_ok m rmin -> fib_start_ok m ->
+  Theorem fib_iter_sound_lemma : forall rmin k, rmin_ok m rmin ->
     sound_ub m rmin (lin_surface m (fib_iter m k (fib_start m))).
   Proof.
-    intros rmin k Hr Hok. apply (ubdom_sound_ub m Hwf).
+    intros rmin k Hr. apply (ubdom_sound_ub m Hwf).
     pose proof (tail_lo_rmin m Hwf rmin Hr) as Hc.
-    destruct (fib_start_supersol m Hwf _ Hok Hc (rmin_lo rmin Hr)) as [H1 H2].
+    destruct (fib_start_supersol m Hwf _ Hc (rmin_lo rmin Hr)) as [H1 H2].
     apply (fib_iter_dom m Hwf); assumption.
   Qed.
 
-  Theorem fib_run_sound_lemma : forall rmin h tol, rmin_ok m rmin -> fib_start_ok m ->
+  Theorem fib_run_sound_lemma : forall rmin h tol, rmin_ok m rmin ->
     sound_ub m rmin (lin_surface m (snd (fib_run m h tol))).
   Proof.
-    intros rmin h tol Hr Hok. unfold fib_run, fib_run_from. cbn [snd].
+    intros rmin h tol Hr. unfold fib_run, fib_run_from. cbn [snd].
     destruct (run_loop_iter m mat (fib_step m) mvar (use_tol tol) tol h (fib_start m) (tol * 2)) as [k [_ E]].
     rewrite E. apply fib_iter_sound_lemma; assumption.
   Qed.
